@@ -43,11 +43,23 @@ class PathResolver:
         try:
             if file_path.is_absolute():
                 return file_path.relative_to(self.project_root)
-            return file_path
-        except ValueError:
+            return self._relative_if_inside_project(file_path)
+        except (ValueError, OSError):
             # If path is outside project root, return it as-is
             # This allows detection of absolute paths in global_deny patterns
             return file_path
+
+    def _relative_if_inside_project(self, file_path: Path) -> Path:
+        """Relativize a path spelled relative to the working directory.
+
+        A target such as proj/src/a.py or ../proj/src/a.py names the same file as src/a.py seen
+        from the project root and must get the same verdict.
+        """
+        resolved = file_path.resolve()
+        root = self.project_root.resolve()
+        if resolved.is_relative_to(root):
+            return resolved.relative_to(root)
+        return file_path
 
     def normalize_path_string(self, path: Path) -> str:
         """Normalize path to forward slashes for cross-platform consistency.
